@@ -181,12 +181,16 @@ class BuildSystem():
 
             if processor.success:
                 return True, processor.nonbond_matrix
-            elif step_count == self.maxiter:
-                processor.nonbond_matrix.remove_positions(mol_idx, molecule.nodes)
+
+            # the attempt failed; discard everything it has built but keep
+            # the positions that were supplied for nodes which are not built
+            built_nodes = [node for node in molecule.nodes if molecule.nodes[node]["build"]]
+            if step_count == self.maxiter:
+                processor.nonbond_matrix.remove_positions(mol_idx, built_nodes)
                 return False, processor.nonbond_matrix
             else:
                 step_count += 1
-                self.nonbond_matrix.remove_positions(mol_idx, molecule.nodes)
+                self.nonbond_matrix.remove_positions(mol_idx, built_nodes)
 
     def _compose_system(self, molecules):
         """
